@@ -50,13 +50,20 @@ for n in $(seq "$FIRST" "$LAST"); do
       # sensitivity matrix mode: only the check of the property the change was written against
       props=$(echo "$meta" | python3 -c "import sys,json; print(json.load(sys.stdin).get('owner',''))")
     fi
+    if [ "${HITRATE:-0}" = "1" ]; then
+      # how many runs of the owner's quick batch show a violation (fragility of the detection)
+      prop=$(echo "$meta" | python3 -c "import sys,json; print(json.load(sys.stdin).get('owner',''))")
+      hits=$(cd "$V" && timeout 1800 "$V/target/release/simcheck" digest --property "$prop" --runs quick 2>/dev/null | grep -vc " held ")
+      verdict="hitrate"; by="$prop"; sig="hits=$hits"
+      props=""
+    fi
     for prop in $props; do
       out=$(cd "$V" && timeout 900 "$V/target/release/simcheck" run --property "$prop" --tier quick 2>&1); rc=$?
       if [ $rc -eq 1 ]; then verdict="caught"; by="$prop"; sig=$(echo "$out" | grep -m1 "^violation: C" | cut -c12-170 | tr -d '"\\'); break; fi
       if [ $rc -ne 0 ]; then verdict="harness-error"; by="$prop"; sig="rc=$rc $(echo "$out" | tail -1 | cut -c1-120 | tr -d '"\\')"; break; fi
     done
   fi
-  if [ "$verdict" = "silent" ]; then
+  if [ "$verdict" = "silent" ] && [ "${OWNER_ONLY:-0}" != "1" ]; then
     if (cd "$WT" && timeout 900 cargo test --offline --lib >/tmp/ms-$LANE-test.log 2>&1); then verdict="SURVIVOR"
     else
       # timing-sensitive tests can flake under load: one retry
